@@ -12,6 +12,10 @@ CHECKS = {
    technique="TLA+ spec Defer.tla (Go semantics of defer/panic/recover with lazily revealed programs): TLC BFS + simulation emit (program, event log, outcome); replayed event-by-event on the fast interpreter; Go gate compiles the same programs natively",
    text="TLC enumerates every program up to the operation bound together with the event log and outcome Go prescribes (hundreds of thousands of states, tens of thousands of distinct programs; simulation for deeper programs over the full operation alphabet including executor phase 2) and checks the semantics' own invariants; every emitted program is run on the real interpreter and compared event by event; a seeded fraction (quick) or all (thorough) is also compiled and run natively so that the specification itself is pinned to Go.",
    ref="§6 C07", note=TRUST + "; the Go toolchain as gate; call graph acyclic by construction; recover across compiled/interpreted frames excluded (documented limitation)"),
+ "C12": dict(
+   technique="TLA+ spec Defer.tla with environment action 'injected hook panics at its k-th call': TLC enumerates (program, fault point) pairs; replay with the hook armed, then run-state snapshot + battery of specification behaviours in the same interpreter",
+   text="Fault enumeration driven by the specification: TLC enumerates every program of the bounded space crossed with every call k at which the injected compiled hook panics (inside interpreted code, inside deferred calls incl. deferred compiled functions, while another panic is handled) with the outcome Go prescribes; each pair is executed on the real interpreter, then the executor bookkeeping (ExecFlags, current frame, debug signal, pending defer) is read through a verif hook and a battery of fault-free specification behaviours is replayed in the same interpreter and compared event by event, including the IsDefer flag and call depth observed at every event.",
+   ref="§6 C12", note=TRUST + "; fast.VerifSnapshot (verif tag) reads Run fields without side effects; behaviours with two panics in flight have their own log judged by C07's known finding, their after-state is still checked"),
 }
 NA = {
  "C31": "no state or transition to model: the property equates ~150 generated data tables with the linked standard library's symbol universe; deciding it needs regenerate-and-compare, a different technique (DESIGN §7)",
